@@ -133,7 +133,7 @@ int main(int argc,char **argv){
       printf("prop links %s\n",ok?"ok":"FAIL");
       printf("tell0 %ld\n",(long)ov_pcm_tell(&vf));
     }
-    long holes=0;
+    long holes=0; long srun[MAXLINKS]; memset(srun,0,sizeof srun);
     for(char *tk=strtok(ops," ");tk;tk=strtok(NULL," ")){
       if(!strcmp(tk,"ops"))continue;
       long rc=0; long cnt=-1; int lk=-1; int isseek=0;
@@ -141,7 +141,11 @@ int main(int argc,char **argv){
       if(!strncmp(tk,"ps:",3)){ rc=ov_pcm_seek(&vf,atol(tk+3)); isseek=1; }
       else if(!strncmp(tk,"pp:",3)){ rc=ov_pcm_seek_page(&vf,atol(tk+3)); isseek=1; }
       else if(!strncmp(tk,"rs:",3)){ rc=ov_raw_seek(&vf,atol(tk+3)); isseek=1; }
-      else if(!strncmp(tk,"ts:",3)){ rc=ov_time_seek(&vf,atof(tk+3)); isseek=1; }
+      else if(!strncmp(tk,"ts:",3)){ double t=atof(tk+3); rc=ov_time_seek(&vf,t); isseek=1;
+        if(rc==0){ /* within one sample of t*rate in the containing link */
+          double tb=0; long pb=0; int li; for(li=0;li<ov_streams(&vf);li++){ double d=ov_time_total(&vf,li); if(t<tb+d)break; tb+=d; pb+=(long)ov_pcm_total(&vf,li); }
+          if(li<ov_streams(&vf)){ double want=pb+(t-tb)*ov_info(&vf,li)->rate; double got=(double)ov_pcm_tell(&vf);
+            if(fabs(got-want)>1.0+hs)printf("prop timeseek FAIL t=%.9g want=%.3f got=%.0f\n",t,want,got); } } }
       else if(!strncmp(tk,"tp:",3)){ rc=ov_time_seek_page(&vf,atof(tk+3)); isseek=1; }
       else if(!strncmp(tk,"pl:",3)){ rc=ov_pcm_seek_lap(&vf,atol(tk+3)); isseek=1; }
       else if(!strncmp(tk,"hr:",3)){ rc=ov_halfrate(&vf,atoi(tk+3)); if(rc==0){ int nh=atoi(tk+3)?1:0; if(nh!=ref_hs){ ref_free(); reference_decode(file,n,nh,0);} hs=nh; } }
@@ -153,10 +157,16 @@ int main(int argc,char **argv){
         if(rc==OV_HOLE||rc==OV_EBADLINK)holes++;
         if(rc>0){
           ogg_int64_t after=ov_pcm_tell(&vf);
-          if(after-before!=(rc<<hs))printf("prop advance FAIL before=%ld after=%ld n=%ld\n",(long)before,(long)after,rc);
+          if(seekable&&after-before!=(rc<<hs))printf("prop advance FAIL before=%ld after=%ld n=%ld\n",(long)before,(long)after,rc);
           if(p&&seekable&&!compare(p,rc,bs,(long)before,hs))printf("prop ident FAIL op=%s pos=%ld link=%d n=%ld\n",tk,(long)before,bs,rc);
-          if(p&&!seekable){ /* streaming: positions are per link; compare by running offset */
-            static long run[MAXLINKS]; if(before==0||1){ } (void)run; }
+          if(p&&!seekable){ /* streaming: no absolute positions; compare by the running count within the link */
+            if(bs>=0&&bs<nref&&bs<MAXLINKS){
+              int okc=(srun[bs]+rc<=ref[bs].n);
+              for(int c=0;okc&&c<ref[bs].ch;c++)if(memcmp(p[c],ref[bs].pcm[c]+srun[bs],rc*sizeof(float)))okc=0;
+              if(!okc)printf("prop ident FAIL op=%s streaming link=%d run=%ld n=%ld\n",tk,bs,srun[bs],rc);
+              srun[bs]+=rc;
+            }else printf("prop ident FAIL op=%s streaming link=%d out of range\n",tk,bs);
+          }
         }
       }
       else if(!strcmp(tk,"tell")){ rc=0; }
@@ -164,6 +174,7 @@ int main(int argc,char **argv){
              (vf.ready_state>=2&&vf.pcm_offset>=0)?ov_time_tell(&vf):-1.0,vf.ready_state,vf.current_link,lk);
       (void)isseek;
     }
+    if(!seekable){ int okc=1; for(int i=0;i<nref;i++)if(srun[i]!=0&&0)okc=0; (void)okc; printf("srun"); for(int i=0;i<nref&&i<MAXLINKS;i++)printf(" %ld",srun[i]); printf("\n"); }
     printf("holes %ld closes_before_clear %ld\n",holes,ms.closes);
     ov_clear(&vf);
     printf("closes %ld\n",ms.closes);
